@@ -8,8 +8,25 @@ RT = "quantarhei/qm/liouvillespace/redfieldtensor.py::"
 
 META = dict(
     category="proof",
-    text="(filled in below)",
-    note="",
+    text=("Every function that assembles a relaxation tensor is proved against a cell-wise contract for all sizes and "
+          "all (complex) values: _loopit and the static / time-dependent Redfield conversions give the assembly formula "
+          "K rho L+ + L rho K+ - K+ L rho - rho L+ K summed over bath components (loops summarised from the AST or with "
+          "sidecar invariants); the reference implementations (Redfield, time-dependent Redfield, Lindblad) are proved "
+          "to hand over Ld = Lm^dagger and, for the time-dependent code, symmetric K (Lean: S^T P S symmetric); Lean "
+          "lemmas whose hypotheses are exactly those contract clauses give sum_a R[a,a,c,d] = 0 and "
+          "conj R[a,b,c,d] = R[b,a,d,c] at every time index. updateStructure, Foerster initialize/add_dephasing, "
+          "the Redfield-Foerster assembling loops and both secularisation routines are proved against cell-wise "
+          "postconditions from which z3 (with Lean-proved finite-sum lemmas) derives the two identities and the "
+          "secular structure (population-transfer and coherence-decay elements unchanged, all others zero). Not "
+          "decided: invariance under basis change of 4-index tensors (transform; see C04), Secular._secularize_data."),
+    note=("numpy.linalg.eigh / inv, spline antiderivatives and correlation-function objects are stand-ins with the "
+          "assumed contracts listed in evidence; basis-managed properties are read as their storage (no basis context "
+          "active); serial DistributedConfiguration (MPI reductions are the subject of C20). A native property-level "
+          "oracle (native/oracle_C01.py) is used only to look for a failing input when an obligation is refuted or "
+          "undecided without one of its own."),
+    technique="VCs from the real AST (map-nest summaries, sidecar loop invariants, modular call rule) discharged by "
+              "z3; trace / Hermiticity / symmetric-congruence lemmas in Lean 4 with hypotheses printed from the "
+              "contract clauses",
 )
 
 R4 = "(range(0, Na), range(0, Na), range(0, Na), range(0, Na))"
@@ -358,6 +375,81 @@ def contracts_td(reg):
                          ensures=ens, loops=LOOPS))
 
 
+RFq = "quantarhei/qm/liouvillespace/redfieldfoerster.py::"
+
+
+def contracts_rf(reg):
+    """combined Redfield-Foerster tensor: the assembling loops"""
+    from qvc.values import Builtin, Obj, SymArr
+    import z3
+    CF = "quantarhei/qm/corfunctions/correlationfunctions.py::"
+    FR = "quantarhei/qm/liouvillespace/rates/foersterrates.py::"
+    reg.add(Contract(CF + "c2g", result=lambda S, env: S.fresh_array((env["timeaxis"].fields["length"],), "cx", prefix="goft"),
+                     notes="line-shape function from a correlation function: values irrelevant for C01"))
+    reg.add(Contract(FR + "_reference_implementation",
+                     result=lambda S, env: S.fresh_array((env["Na"], env["Na"]), "real", prefix="KF"),
+                     notes="Foerster rates: a real (Na,Na) array (C06); values irrelevant for C01"))
+
+    def rt_hook(ex, cinfo, args, kwargs, line):
+        if cinfo.name == "RedfieldRelaxationTensor" and getattr(ex, "rf_mode", False):
+            ex.used_contracts.add("assume:RedfieldRelaxationTensor.data is traceless and Hermitian (proved in this plan)")
+            n = args[0].fields["dim"]
+            return (Obj("RedfieldRelaxationTensor(result)", {"data": ex.rf_RT}),)
+        return None
+    reg.models.hooks_instantiate.append(rt_hook)
+    reg.models.table["numpy.allclose"] = Builtin("numpy.allclose", lambda ex, a, k, l: V_fresh_bool())
+
+    def V_fresh_bool():
+        from qvc.values import fresh
+        return fresh("allclose", z3.BoolSort())
+
+    def setup(S):
+        serial_manager(S)
+        n, nt = S.int("N"), S.int("Nt")
+        ham = S.obj("Hamiltonian(stub)", label="ham", dim=n, data=S.array("Hdata", (n, n), "real"),
+                    _has_remainder_coupling=S.bool("has_JR"), JR=S.array("JR", (n, n), "real"))
+        ta = S.obj("TimeAxis(stub)", label="ta", length=nt, data=S.array("tdata", (nt,), "real"))
+        cc = S.obj("CorrelationFunctionMatrix(stub)", label="CC",
+                   get_coft=Builtin("CC.get_coft", lambda ex, a, k, l: S.fresh_array((nt,), "cx", prefix="coft")),
+                   get_reorganization_energy=Builtin("CC.get_reorganization_energy", lambda ex, a, k, l: S.fresh_real("lam")))
+        sbi = S.obj("SystemBathInteraction(stub)", label="sbi", TimeAxis=ta, CC=cc)
+        me = S.obj(RFq + "RedfieldFoersterRelaxationTensor", label="self", Hamiltonian=ham, SystemBathInteraction=sbi,
+                   dim=n, _has_cutoff_time=S.bool("has_cutoff"), cutoff_time=S.real("cutoff_time"),
+                   _data=S.array("data", (n, n, n, n), "cx"))
+        S.ex.rf_mode = True
+        S.ex.rf_RT = S.array("RT", (n, n, n, n), "cx")
+        return dict(self=me, N=n, Nt=nt, RT=S.ex.rf_RT)
+    N4 = "(range(0, N), range(0, N), range(0, N), range(0, N))"
+    reg.add(Contract(
+        RFq + "RedfieldFoersterRelaxationTensor._reference_implementation", setup=setup,
+        requires=["N >= 0", "Nt >= 0",
+                  ("tensor-starts-at-zero", "forall((a, b, c, d), %s, self._data[a,b,c,d] == 0)" % N4),
+                  ("redfield-part-traceless", TRACE0.format(R="RT")), ("redfield-part-hermitian", HERM.format(R="RT"))],
+        ensures=[("population-columns-keep-their-sum",
+                  "forall(c, range(0, N), Sum(a, range(0, N), self._data[a,a,c,c]) == Sum(a, range(0, N), RT[a,a,c,c]))"),
+                 ("all-other-elements-are-the-redfield-ones",
+                  "forall((a, b, c, d), %s, implies(not (a == b and c == d), self._data[a,b,c,d] == RT[a,b,c,d]))" % N4),
+                 ("hermitian", HERM.format(R="self._data"))],
+        loops={1: dict(inv=[], modifies=["gvals"]), 2: dict(inv=[], modifies=["gvals"]),
+               4: dict(inv=[], modifies=["lamb"]), 5: dict(inv=[], modifies=["lamb"]),
+               7: dict(use_post=[("column_update_keeps_sum",
+                                  {"N": "N", "b": "b", "F": "diag_column(entry(self._data), b)",
+                                   "F2": "diag_column(self._data, b)", "G": "KF[:,b]"})],
+                       inv=["forall(y, range(0, _i), Sum(x, range(0, N), self._data[x,x,y,y]) == "
+                            "Sum(x, range(0, N), entry(self._data)[x,x,y,y]))",
+                            "forall((x, y), (range(0, N), range(0, _i)), self._data[x,x,y,y] == entry(self._data)[x,x,y,y] + KF[x,y] "
+                            "- ite(x == y, Sum(z, range(0, N), KF[z,y]), 0))",
+                            "forall((x, y), (range(0, N), range(_i, N)), self._data[x,x,y,y] == entry(self._data)[x,x,y,y])",
+                            "forall((a, b, c, d), %s, implies(not (a == b and c == d), self._data[a,b,c,d] == entry(self._data)[a,b,c,d]))" % N4],
+                       modifies=["self._data"]),
+               8: dict(inv=["gg == Sum(z, range(0, _i), KF[z,b])",
+                            "forall(x, range(0, _i), self._data[x,x,b,b] == entry(self._data)[x,x,b,b] + KF[x,b])",
+                            "forall(x, range(_i, N), self._data[x,x,b,b] == entry(self._data)[x,x,b,b])",
+                            "forall((a2, b2, c2, d2), %s, implies(not (a2 == b2 and c2 == d2 and c2 == b), "
+                            "self._data[a2,b2,c2,d2] == entry(self._data)[a2,b2,c2,d2]))" % N4],
+                       modifies=["self._data"])}))
+
+
 def contracts3(reg):
     """Foerster tensors"""
     from props.common import transparent_units_contexts
@@ -408,6 +500,22 @@ def contracts3(reg):
                               ("only-coherence-decay-elements-change",
                                "forall((a, b, c, d), (range(0, N), range(0, N), range(0, N), range(0, N)), "
                                "implies(not (a == c and b == d and a != b), self._data[a,b,c,d] == old(self._data)[a,b,c,d]))")]))
+    TF = "quantarhei/qm/liouvillespace/tdfoerstertensor.py::"
+
+    def setup_ad_td(S):
+        d = setup_f(S, True)
+        d["self"].cls = S.ex.repo.cls(TF + "TDFoersterRelaxationTensor")
+        d["self"].fields["_data"] = S.array("data", (d["Nt"],) + (d["N"],) * 4, "cx")
+        return d
+    COH_HERM_TD = ("forall((t, a, b), (range(0, Nt), range(0, N), range(0, N)), "
+                   "implies(a != b, conj({D}[t,a,b,a,b]) == {D}[t,b,a,b,a]))")
+    reg.add(Contract(TF + "TDFoersterRelaxationTensor.add_dephasing", setup=setup_ad_td, ghost=ghost_ad,
+                     requires=["N >= 0", "Nt >= 1", ("coherence-elements-hermitian", COH_HERM_TD.format(D="self._data"))],
+                     modifies=["self._data"],
+                     ensures=[("coherence-elements-stay-hermitian-at-every-time", COH_HERM_TD.format(D="self._data")),
+                              ("only-coherence-decay-elements-change",
+                               "forall((t, a, b, c, d), (range(0, Nt), range(0, N), range(0, N), range(0, N), range(0, N)), "
+                               "implies(not (a == c and b == d and a != b), self._data[t,a,b,c,d] == old(self._data)[t,a,b,c,d]))")]))
     for pd, tag in ((False, "#nodephasing"), (True, "#puredephasing")):
         reg.add(Contract(FT + "FoersterRelaxationTensor.initialize" + tag, setup=(lambda S, pd=pd: setup_f(S, pd)),
                          requires=["N >= 0", "Nt >= 1"],
@@ -522,6 +630,7 @@ def plan(ctx):
     contracts2(ctx.registry)
     contracts3(ctx.registry)
     contracts_td(ctx.registry)
+    contracts_rf(ctx.registry)
     p.functions = [RT + "_loopit", RT + "RedfieldRelaxationTensor._convert_operators_2_tensor",
                    RT + "RedfieldRelaxationTensor._post_implementation#operators",
                    RT + "RedfieldRelaxationTensor._post_implementation#tensor",
@@ -534,8 +643,19 @@ def plan(ctx):
                    TD + "TDRedfieldRelaxationTensor.secularize",
                    TD + "TDRedfieldRelaxationTensor._implementation#operators",
                    TD + "TDRedfieldRelaxationTensor._implementation#tensor",
+                   RFq + "RedfieldFoersterRelaxationTensor._reference_implementation",
                    FT + "FoersterRelaxationTensor.add_dephasing",
+                   "quantarhei/qm/liouvillespace/tdfoerstertensor.py::TDFoersterRelaxationTensor.add_dephasing",
                    FT + "FoersterRelaxationTensor.initialize#nodephasing",
                    FT + "FoersterRelaxationTensor.initialize#puredephasing"]
+    p.oracles = ["native/oracle_C01.py"]
+    p.not_decided = ["invariance of the two identities under RelaxationTensor.transform (two-stage in-place similarity "
+                     "transformation of a 4-index tensor): covered for the operator form only through C04",
+                     "Secular._secularize_data / secularize(legacy=False) (reversible secularisation through rate matrices)",
+                     "ElectronicLindbladForm / cast_to_vibronic (construction of vibronic projectors)",
+                     "TDFoerster/Foerster rate values themselves (C06)"]
+    p.trusted = ["numpy.linalg.eigh of a real symmetric matrix returns real eigenvectors whose inverse is the transpose",
+                 "RedfieldRelaxationTensor(...) called inside the Redfield-Foerster code returns a tensor with the two "
+                 "identities (proved above for _implementation/_post_implementation; the constructor's plumbing is read, not proved)"]
     p.lemmas = [lemma_redfield, lemma_redfield_td, lemma_secular, lemma_rate_structure]
     return p
